@@ -98,9 +98,9 @@ def observe(case):
         return {"got": gf, "orig": of}
     is_mux = any(s["name"] == c["sname"] and s["mux"] == "Multiplexor" for s in of["signals"])
     gs = R.find_signal(gf, c["sname"], c["fmt"], is_mux, of["name"]) if gf else None
-    stored = r["stored"].get((c["fid"], c["sname"]))
+    stored = r["stored"].get((c["fid"], c["ext"], c["sname"]))
     if stored is None and c["fmt"] == "sym" and is_mux:
-        stored = r["stored"].get((c["fid"], "<mux>"))
+        stored = r["stored"].get((c["fid"], c["ext"], "<mux>"))
     return {"emit": stored if c.get("x") else None,
             "back": [gs["start"], gs["size"], gs["little"]] if gs else None,
             # the sign flag of a float signal carries no meaning and is not stored by DBF/KCD/SYM
@@ -126,6 +126,11 @@ def features(case, impl):
         yield "buses=%s/%d" % (c["fmt"], len(c["names"]))
         return
     yield "fmt=" + c["fmt"] + ("/" + c["wn"] + ">" + c["rn"] if c["fmt"] in ("json", "xls") else "/" + c["wn"] if c["wn"] == "3.2.3" else "")
+    fr = c["m"]["frames"]
+    if any(f["id"] == g["id"] and f["ext"] != g["ext"] for f in fr for g in fr):
+        yield "matrix:same-number-in-both-formats"
+    if any(f["size"] > 8 for f in fr):
+        yield "matrix:fd-length"
     if case["op"] == "sig":
         d = c["sig"]
         yield "%s:%s%s" % (c["fmt"], "intel" if d[3] else "motorola", "/float" if d[5] else "")
